@@ -57,6 +57,9 @@ def vectors(kinds, maxf, maxitems, mutants, invariants):
     return res, vecs
 
 
+PAIRS = [0]  # (block, mutant) pairs compared in this process (C14 evidence)
+
+
 class Poison:
     """numpy.empty returns buffers pre-filled with a non-NaN pattern: a legal
     environment (numpy.empty promises nothing), which makes use of uninitialised
@@ -232,18 +235,21 @@ def evaluate(vec, r, props, style=0, morph_from=None):
         except Exception as x:  # noqa: BLE001
             out.append(("C14:equal_content_unequal", f"{type(x).__name__}: {x}"))
         for m in vec.get("mutants", []):
-            try:
-                other = ab.gamma(kind, fmt, m, Values(r, specials=False), style)
-                base = ab.gamma(kind, fmt, b, Values(r, specials=False), style)
-            except Exception:  # noqa: BLE001
-                continue  # the mutant is not a valid block (e.g. duplicate channel): not a C14 pair
-            try:
-                eq1, eq2 = bool(base == other), bool(other == base)
-            except Exception as x:  # noqa: BLE001
-                out.append(("C14:comparison_raises", f"{type(x).__name__}: {x}; {_where(b, m)}"))
-                continue
-            if eq1 or eq2:
-                out.append(("C14:different_content_equal", _where(b, m)))
+            for zero_new in (False, True):
+                try:
+                    other = ab.gamma(kind, fmt, m, Values(r, specials=False, zero_new=zero_new), style)
+                    base = ab.gamma(kind, fmt, b, Values(r, specials=False, zero_new=zero_new), style)
+                except Exception:  # noqa: BLE001
+                    continue  # the mutant is not a valid block (e.g. duplicate channel): not a C14 pair
+                try:
+                    eq1, eq2 = bool(base == other), bool(other == base)
+                except Exception as x:  # noqa: BLE001
+                    out.append(("C14:comparison_raises", f"{type(x).__name__}: {x}; {_where(b, m)}"))
+                    break
+                PAIRS[0] += 1
+                if eq1 or eq2:
+                    out.append(("C14:different_content_equal", _where(b, m) + (" (new samples are 0.0)" if zero_new else "")))
+                    break
     return out
 
 
@@ -376,6 +382,8 @@ def check(prop, tier, seed, replay=None):
     run.cov["evaluations"] = n_eval
     run.cov["distinct_nontrivial"] = nontrivial
     run.cov["vectors_per_struct"] = per_kind
+    if mutants:
+        run.cov["mutant_pairs_compared"] = PAIRS[0]
     run.cov["concretisations"] = rs
     run.cov["rule"] = ("every abstract block TLC enumerates for the bounded domain (all presence masks, 0..MaxItems items, "
                        "all formats) is one vector; each is replayed on the real library under each concretisation; "
